@@ -163,7 +163,13 @@ def array_decoders(ctx, L):
             ('for _ in xrange(count): value, size = tp._decode(data, pos + cursor, endianness) cursor += size values.append(value)',
              'elements are decoded consecutively with the element codec'),
             ('return (values, cursor)', 'returns the values and the bytes consumed')):
-        L.check(piece in src, 'C02.array-decode', 'decode_scalar_array|' + piece[:40], f.site(), why, '')
+        alts = [piece]
+        if 'bool(remainder)' in piece:
+            # the same count, spelled with a conditional (+1 exactly when a partial element remains)
+            alts += [piece.replace('count = items + bool(remainder)', c) for c in (
+                'count = items + 1 if remainder else items', 'count = items + (1 if remainder else 0)',
+                'count = items if not remainder else items + 1')]
+        L.check(any(a in src for a in alts), 'C02.array-decode', 'decode_scalar_array|' + piece[:40], f.site(), why, '')
     # origin of the decoded values: every list the function returns is filled only from the element codec (a shortcut that
     # builds the values another way bypasses signedness / byte order / enum lookup of the element type)
     n_ret = 0
